@@ -142,3 +142,35 @@ Theorem C03_iota_multi_refuted :
   /\ g_run w_iota_multi = Printed [(TInt, OI 1); (TInt, OI 10)].
 Proof. exact iota_multi_refuted. Qed.
 Print Assumptions C03_iota_multi_refuted.
+
+(** Constant declarations.  Groups of single-name untyped ConstSpecs over integer, string and
+    boolean expressions of any depth and magnitude, with iota and implicit repetition, any number
+    of groups, at package level (three visits of every spec: gta on the group, gta on the spec, cfg)
+    or in a function (two visits): whenever the specification accepts the declarations, yaegi
+    prints for the shown names exactly the types and values of the specification (iota is the
+    index of the spec, a spec without expression repeats the previous one), or both reject the
+    use of a constant that overflows its default type.  Induction on the list of groups, the list
+    of specs and the expression trees; the side conditions are the negations of the regions
+    iota-multi (several names), decl-type-propagation (explicit type), quo-no-unify (runes). *)
+Theorem C03_iota_partial :
+  forall global gs shown, groups_ok gs -> g_groups [] gs <> None ->
+    y_run (PConst global gs shown) = g_run (PConst global gs shown).
+Proof. exact const_groups_agree. Qed.
+Print Assumptions C03_iota_partial.
+
+Example C03_iota_side_condition_inhabited :
+  groups_ok ex_block /\ g_groups [] ex_block <> None
+  /\ g_run (PConst true ex_block [1%N; 3%N; 4%N; 5%N]) = Printed [(TInt, OI 4); (TString, OS (s "ab")); (TString, OS (s "ab")); (TBool, OB true)]
+  /\ g_run (PConst true ex_block [2%N]) = Rejected.
+Proof. exact const_groups_inhabited. Qed.
+Print Assumptions C03_iota_side_condition_inhabited.
+
+(** a visit of a tree of that fragment — fresh, or already visited any number of times, whatever
+    type of the fragment the pre-order hands down — leaves every node with the kind of the tree and
+    the value of its subexpression *)
+Theorem C03_visits_stable :
+  forall e k, fr1 e = Some k -> forall iota v, g_eval [] iota e = Some (GU k, v) ->
+  forall cnt full cx pr x, tinv cnt full k iota x e -> (full = false -> cx_iota cx = iota) -> pr_pos cnt k pr ->
+  exists x', y_pass cx pr x = (x', Ok tt) /\ tinv cnt true k iota x' e.
+Proof. exact pass_inv. Qed.
+Print Assumptions C03_visits_stable.
